@@ -71,6 +71,10 @@ def gen_case(gen):
         lkind = kind if rng.random() < 0.8 else rng.choice(G.KINDS)
         if i == 0 or rng.random() < 0.65:
             leaf = gen.poly(shape=shape, kind=lkind, maxexp=rng.choice([2, 3, 5]))
+            if rng.random() < 0.12:
+                # narrower coefficient types: a different code path of the native layer
+                leaf["dtype"] = {"int": rng.choice(["int32", "int16"]), "float": "float32",
+                                 "complex": "complex64"}[lkind]
         else:
             leaf = gen.const_operand(shape=shape, kind=lkind)
         nodes.append({"leaf": leaf})
@@ -156,6 +160,7 @@ def run_case(case, ctx):
             want.append(G.model(spec))
             depth.append(0)
             feats.append(G.spec_features(spec))
+            feats[-1]["narrow"] = bool(spec.get("dtype"))
             isconst.append(spec["k"] != "poly")
             continue
         idx = node["args"]
@@ -228,7 +233,13 @@ def run_case(case, ctx):
         exact = all(c in ("int", "int64", "int32", "int16", "uint8", "bool", "int_") or c == "int"
                     for c in coefs) and all(
             f["coef"] in ("int", "int64", "int32", "int16", "uint8") for f in argfeats)
-        rtol = None if exact else 1e-9
+        narrow = any(f.get("narrow") for f in argfeats)
+        rtol = None if exact else (1e-4 if narrow else 1e-9)
+        if narrow and exact and mag > 2.0 ** 14:
+            # int16 / int32 leaves: keep clear of their own wrap-around
+            real.append(None); want.append(None); depth.append(9); feats.append(None)
+            isconst.append(True)
+            continue
         nontrivial = (any(f["nterms"] >= 2 or len(f["shape"]) > 0 for f in argfeats)
                       and not all(isconst[i] for i in idx))
         sig = (op, node["sp"], kinds, tuple(f["shape"] for f in argfeats), names_rel, coefs, d,
@@ -263,7 +274,7 @@ def run_case(case, ctx):
         want.append(expected)
         depth.append(d)
         names = tuple(sorted(M.all_names(expected)))
-        feats.append({"kind": "result", "coef": "int" if exact else "float",
+        feats.append({"kind": "result", "coef": "int" if exact else "float", "narrow": narrow,
                       "shape": tuple(expected.shape),
                       "nterms": max((e.nterms() for e in expected.ravel().tolist()), default=0),
                       "names": names, "view": ""})
